@@ -187,6 +187,47 @@ def run(tier, seed):
     if drv is not None:
         ck.sample({"class": "LULinear", "n": 2, "model": drv.call("lu", z(2), f(1e-3), F([0.5]), F([-0.25]), F([0.1, 0.2]), F([0.0, 1.0]), F([1.0, 2.0]))})
         ck.correspondence("list-of-rows model vs weight / weight_inverse / logabsdet / forward / inverse", n, mm)
+    # ---- matrices whose determinant leaves the floating-point range although log|det| is modest: many features, or entries of
+    # extreme scale.  The accessors must still return finite values that agree with a float64 reference and with each other.
+    import math as _math
+    big = []
+    for dt in (torch.float32, torch.float64):
+        for nfeat in (64, 128):
+            torch.manual_seed(seed + nfeat)
+            big.append(("NaiveLinear(%d, random init) %s" % (nfeat, dt), linear.NaiveLinear(nfeat, orthogonal_initialization=False).to(dt)))
+            big.append(("LULinear(%d) %s" % (nfeat, dt), lu.LULinear(nfeat, identity_init=False).to(dt)))
+            t_ = svd.SVDLinear(nfeat, num_householder=2, identity_init=False).to(dt)
+            with torch.no_grad():
+                t_.unconstrained_diagonal.fill_(-4.0 if nfeat == 64 else 3.0)
+            big.append(("SVDLinear(%d, diagonal %s) %s" % (nfeat, "small" if nfeat == 64 else "large", dt), t_))
+        for sc in (1e-12, 1e10):
+            t_ = linear.NaiveLinear(4, orthogonal_initialization=False).to(dt)
+            with torch.no_grad():
+                t_._weight.copy_(torch.eye(4, dtype=dt) * sc + torch.ones(4, 4, dtype=dt) * sc * 0.1)
+            big.append(("NaiveLinear(4, entries %g) %s" % (sc, dt), t_))
+    for name, t in big:
+        t.eval()
+        dt = next(t.parameters()).dtype
+        nfeat = t.features
+        ck.case(("c11-range", name), nontrivial=True)
+        case = {"search": "determinant-out-of-range", "transform": name, "seed": seed}
+        with torch.no_grad():
+            r = attempt(lambda: (t.weight(), t.logabsdet(), t(torch.zeros(2, nfeat, dtype=dt)), t.inverse(torch.zeros(2, nfeat, dtype=dt))))
+        if r[0] != "ok":
+            ck.finding("linear:%s:accessor-raises:%s" % (name.split("(")[0], r[1]), "%s: %s" % (name, r[2]), case)
+            continue
+        W, lad, (y, ly), (xi, li) = r[1]
+        ref = float(torch.linalg.slogdet(W.double())[1])
+        tol = (2e-3 if dt == torch.float32 else 1e-8) * max(1.0, abs(ref))
+        vals = {"logabsdet()": float(lad), "forward": float(ly[0]), "-inverse": -float(li[0])}
+        for acc in ("weight_and_logabsdet", "weight_inverse_and_logabsdet"):
+            a = attempt(getattr(t, acc))
+            if a[0] == "ok":
+                vals[acc + "()"] = float(a[1][1])
+        bad = {k: v for k, v in vals.items() if not _math.isfinite(v) or abs(v - ref) > tol}
+        if bad:
+            ck.finding("linear:%s:logabsdet-not-log-det-W" % name.split("(")[0],
+                       "%s: log|det W| = %.6f (float64 reference) but %s" % (name, ref, bad), case)
     return ck.finish()
 
 
